@@ -866,10 +866,15 @@ func (u *Unit) readField(st *State, base Val, f *types.Var, pos token.Pos) Val {
 		h := u.heapGet(st, u.heapKeyField(so, f.Name()), "(Array Int "+fs+")")
 		v := Val{T: app("select", h, base.T), Ty: f.Type(), So: fs}
 		// values stored in the heap satisfy the invariants of their type
-		switch f.Type().Underlying().(type) {
+		switch ft := f.Type().Underlying().(type) {
 		case *types.Slice, *types.Map, *types.Basic:
 			if inv := u.typeInv(v); inv != "true" {
 				st.assume(inv)
+			}
+		case *types.Interface:
+			// static typing: a non-nil value of interface type I implements I (opt-in: ifacetyping)
+			if u.contract != nil && u.contract.IfaceTyping && ft.NumMethods() > 0 && u.inSpec == 0 {
+				st.assume(sOr(sEq(v.T, "0"), app(u.sc.implementsFn(f.Type()), app("dyntype", v.T))))
 			}
 		}
 		return v
